@@ -752,6 +752,133 @@ def check_ccsds(case):
                 ratio=worst / tol if tol else 0.0)
 
 
+# ------------------------------------------------------------------ CCSDS messages made of several parts
+
+
+@st.composite
+def ccsds_multi_case(draw, shard, tier):
+    leaps = t3.leap_days()
+    us = draw(gd.instants(leaps, lo_mjd=gd.LO_MJD + 2, hi_mjd=gd.HI_MJD - 2))
+    if not gd.leap_free(us - US, us + 6 * 3600 * US, leaps):
+        us += 2 * US_DAY
+    kind = draw(st.sampled_from(["oem-segments", "oem-segments", "tdm-paths", "opm-mans"]))
+    nparts = draw(st.integers(2, 3))
+    step = draw(st.sampled_from([1, 60, 300])) * US
+    parts = [dict(Y=iers.SCALES[draw(st.integers(0, 5))], n=draw(st.integers(3, 6)),
+                  inner=[iers.SCALES[draw(st.integers(0, 5))] for _ in range(6)] if draw(st.integers(0, 3)) == 0 else None)
+             for _ in range(nparts)]
+    return dict(us=us, kind=kind, step=step, parts=parts, fmt=draw(st.sampled_from(["kvn", "xml"])),
+                el=draw(go.elements(hyperbolic=False, emax_ell=0.5, rp_range=(1.05, 4.0))))
+
+
+def _system(Y, instants):
+    """The label that declares a time system: never UT1 if one of the dates written under it lies where the
+    UT1 reading is ambiguous (C03)."""
+    Y = lab(instants[0], Y)
+    if Y == "UT1" and any(t3.ut1_slack(u, ("UT1",)) for u in instants):
+        Y = "TDB"
+    return Y
+
+
+def check_ccsds_multi(case):
+    from beyond.io.ccsds import dumps, loads
+    from beyond.orbits import Ephem
+    from beyond.orbits.man import ContinuousMan, ImpulsiveMan
+    from beyond.dates import timedelta
+    from beyond.utils.measures import Doppler, MeasureSet, Range
+
+    us, kind, step, fmt = case["us"], case["kind"], case["step"], case["fmt"]
+    written = []   # per part: list of Dates as handed to the writer
+    systems = []
+    labels = []
+    t = us
+    if kind == "oem-segments":
+        cart0 = go.cart_of(case["el"])
+        ephems = []
+        for part in case["parts"]:
+            inst = [t + k * step for k in range(part["n"])]
+            Y = _system(part["Y"], inst)
+            orbs = []
+            for k, u in enumerate(inst):
+                L = lab(u, part["inner"][k]) if (part["inner"] and k) else Y
+                labels.append(L)
+                o = cart_orbit(dict(case["el"]), date_of(u, L), None)
+                o[:] = tb.propagate_uv(cart0, (u - us) / 1e6, MU_E)
+                orbs.append(o)
+            e = Ephem(orbs)
+            e.name, e.cospar_id = "VERIF", "1998-067A"
+            ephems.append(e)
+            written.append([o.date for o in orbs])
+            systems.append(Y)
+            t = inst[-1] + 10 * step
+        back = loads(dumps(ephems, fmt=fmt))
+        back = back if isinstance(back, (list, tuple)) else [back]
+        got = [[o.date for o in e] for e in back]
+    elif kind == "tdm-paths":
+        ms = MeasureSet()
+        for j, part in enumerate(case["parts"]):
+            inst = [t + k * step for k in range(part["n"])]
+            Y = _system(part["Y"], inst)
+            path = (f"STA{j}", "SAT", f"STA{j}")
+            ds = []
+            for k, u in enumerate(inst):
+                L = lab(u, part["inner"][k]) if (part["inner"] and k) else Y
+                labels.append(L)
+                d = date_of(u, L)
+                ms.append((Range if k % 2 == 0 else Doppler)(path, d, 1.0e6 + 1000.0 * k))
+                ds.append(d)
+            written.append(ds)
+            systems.append(Y)
+            t = inst[-1] + 10 * step
+        back = loads(dumps(ms, fmt=fmt))
+        sets = back if isinstance(back, list) and back and isinstance(back[0], MeasureSet) else [back]
+        flat = [m for sset in sets for m in sset]
+        got = []
+        for j in range(len(case["parts"])):
+            got.append([m.date for m in flat if tuple(m.path)[0] == f"STA{j}"])
+    else:
+        Y = _system(case["parts"][0]["Y"], [us] + [us + (j + 1) * 7 * step for j in range(len(case["parts"]))])
+        orb = cart_orbit(case["el"], date_of(us, Y), None)
+        orb.name, orb.cospar_id = "VERIF", "1998-067A"
+        labels.append(Y)
+        mans, ds = [], [orb.date]
+        for j, part in enumerate(case["parts"]):
+            u = us + (j + 1) * 7 * step
+            Z = lab(u, part["Y"])
+            labels.append(Z)
+            d = date_of(u, Z)
+            if j % 2 == 0:
+                mans.append(ImpulsiveMan(d, [1.0, 0.0, 0.0], frame="TNW"))
+            else:
+                mans.append(ContinuousMan(d, timedelta(seconds=30), dv=[0.0, 1.0, 0.0], frame="QSW"))
+            ds.append(d)
+        orb.maneuvers = mans
+        back = loads(dumps(orb, fmt=fmt))
+        written, systems = [ds], [Y]
+        got = [[back.date] + [getattr(m, "start", None) or m.date for m in back.maneuvers]]
+    what = f"{kind}/{fmt}, parts declared {systems}, dates labelled {sorted(set(labels))}"
+    if len(got) != len(written):
+        raise Violation("ccsds-parts", f"{what}: {len(got)} parts read back, {len(written)} written")
+    tol = 2 if inexact(*labels, *systems) else 0
+    worst = 0
+    for j, (g, w) in enumerate(zip(got, written)):
+        if len(g) != len(w):
+            raise Violation("ccsds-count", f"{what}: part {j}: {len(g)} dates read back, {len(w)} written")
+        for k, (a, b) in enumerate(zip(g, w)):
+            off = t3.td_us(a - b)
+            worst = max(worst, abs(off))
+            if abs(off) > tol:
+                raise Violation(f"ccsds-{kind.split('-')[0]}-instant",
+                                f"{what}: part {j}, date #{k} {b} comes back as {a} ({off} us away)", off=off, part=j)
+            if kind != "tdm-paths" or True:
+                if str(a.scale) != systems[min(j, len(systems) - 1)]:
+                    raise Violation("ccsds-time-system", f"{what}: part {j}, date #{k} read back labelled {a.scale}, "
+                                                         f"the part was written under {systems[min(j, len(systems) - 1)]}")
+    cls = [f"eop:{t3.cfg()}", f"kind:{kind}", fmt, f"parts:{len(written) if kind != 'opm-mans' else len(case['parts'])}",
+           "systems-differ" if len(set(systems)) > 1 or kind == "opm-mans" and len(set(labels)) > 1 else "one-system"]
+    return dict(nt=len(set(labels)) > 1, cls=cls + clone_classes(case), ratio=worst / tol if tol else 0.0)
+
+
 # ------------------------------------------------------------------ events
 
 
@@ -1266,6 +1393,8 @@ FACETS = [
           rule="every case ((X, Y) != (UTC, UTC) by construction)", quick=(6, 40), thorough=(16, 100), shrink_quick=False),
     Facet("utils", with_clone(utils_case), check_utils, setup=setup,
           rule="every case (label is never UTC)", quick=(4, 250), thorough=(8, 1500)),
+    Facet("ccsds_multi", with_clone(ccsds_multi_case), check_ccsds_multi, setup=setup_ccsds,
+          rule="dates of one message carry different labels (segments, paths or maneuvers)", quick=(4, 150), thorough=(8, 1500)),
     Facet("ccsds", with_clone(ccsds_case), check_ccsds, setup=setup_ccsds,
           rule="every case (some date is not labelled UTC, or labels are mixed)", quick=(4, 250), thorough=(8, 1500)),
 ]
